@@ -258,6 +258,25 @@ func (w *world) armInjection() {
 			t.Accepted = true
 		}
 		t.Injected = true
+		if w.c.Verbose {
+			sn := w.N.Mempool.VerifSnapshot()
+			w.c.Logf("after the lock-point submission: good=%d future-senders=%d", len(sn.Good), len(sn.Future))
+			for _, h := range w.order {
+				if o := w.tracked[h]; o != nil && o.Sender == t.Sender && o.HasNonce && o.Nonce == t.Nonce+1 {
+					if c2, err := cloneTx(o.tx); err == nil {
+						w.c.Logf("   state check of successor %s now: %v", short(o.Hash), w.N.App.CheckTx(c2, false))
+					}
+				}
+			}
+			for _, tx := range sn.Good {
+				w.c.Logf("   good   %s", short(tx.Hash()))
+			}
+			for a, l := range sn.Future {
+				for _, tx := range l {
+					w.c.Logf("   future %x %s", a[:3], short(tx.Hash()))
+				}
+			}
+		}
 		w.log(opRec{Op: "submit", Class: "valid@commit-lock-point", Tx: short(t.Hash), From: w.fromStr(t), Nonce: w.nonceStr(t), Res: errClass(res)})
 		w.c.Count("submissions_injected_at_commit_lock_point", 1)
 		w.c.Count("submissions", 1)
